@@ -7,6 +7,8 @@ Definition mtcp_probe_len : Z := 0.       (* Send ends with a zero-length byte s
 Definition mtcp_skip_len : Z := 0.        (* the server skips zero-length byte strings *)
 Definition mtcp_keepalive_s : Z := 5.     (* keep-alive period (seconds), zero-length byte string *)
 
+Definition bbc_queue_cap : Z := 64.       (* capacity of Connector.fragmentOut / failTransmission / reportChan *)
+
 (* go/token codes of the comparison operators the model's branches mirror *)
 Definition tok_eql : Z := 39.   (* == *)
 Definition tok_neq : Z := 44.   (* != *)
